@@ -18,6 +18,7 @@ import linecache
 import random
 import sys
 import threading
+import time
 import types
 from collections import Counter
 
@@ -181,6 +182,7 @@ def extend_spec(rng, s, rich=True):
     s["c_hash"] = rng.random() < 0.6
     s["c_init"] = rng.random() < 0.9
     s["qual"] = "K"
+    s["nest"] = rng.choice([None, None, "function", "class"])
     return s
 
 
@@ -368,6 +370,14 @@ class TextClass(g.ClassUnderTest):
         qual = s.get("qual", "K")
         if s["style"] == "make_class":
             text = 'K_ = H["make_class"](%r, H["these"], bases=H["bases"], class_body=H["body"], **H["kw"])\n' % qual
+        elif s.get("nest") == "function":
+            body = field_lines + hook_lines or ["    pass"]
+            text = ('def mk_():\n    @H["deco"](**H["kw"])\n    class %s(*H["bases"]):\n%s\n    return %s\nK_ = mk_()\n'
+                    % (qual, "\n".join("    " + l for l in body), qual))
+        elif s.get("nest") == "class":
+            body = field_lines + hook_lines or ["    pass"]
+            text = ('class Outer_:\n    @H["deco"](**H["kw"])\n    class %s(*H["bases"]):\n%s\nK_ = Outer_.%s\n'
+                    % (qual, "\n".join("    " + l for l in body), qual))
         else:
             body = field_lines + hook_lines or ["    pass"]
             text = '@H["deco"](**H["kw"])\nclass %s(*H["bases"]):\n%s\nK_ = %s\n' % (qual, "\n".join(body), qual)
@@ -1299,7 +1309,13 @@ def getattr_cases(seed, has_original, which=None):
             text = ('@H["deco"]\nclass K:\n    x = H["ca"]\n    cp = H["cp"]\n' +
                     ('    __getattr__ = H["og"]\n' if has_original else '') + 'K_ = K\n')
             e.mod.__dict__["H"] = H
-            exec(compile(text, "<c17 %s>" % e.name, "exec"), e.mod.__dict__)
+            try:
+                exec(compile(text, "<c17 %s>" % e.name, "exec"), e.mod.__dict__)
+            except Exception as ex:
+                out.append(prop_case(False, {"family": "getattr", "has_original": has_original, "variant": kind, "seed": seed},
+                                     {"definition_error": [type(ex).__name__, str(ex)], "class_source": text},
+                                     {"family": "getattr", "module": kind, "what": "definition-fails"}))
+                continue
             cls = e.mod.__dict__["K_"]
             f = cls.__dict__["__getattr__"]
             beh = []
@@ -1312,6 +1328,8 @@ def getattr_cases(seed, has_original, which=None):
                 except Exception as ex:
                     beh.append(["raised", type(ex).__name__])
             results.append((e, cls, f, beh, text))
+        if not results or results[0][0].kind != "clean":
+            return out
         beh0 = results[0][3]
         for e, cls, f, beh, text in results:
             if which not in (None, e.kind):
@@ -1358,7 +1376,12 @@ def define_plain(module_dict, qual, body_id):
     so concurrent definers do not fight over a module-level name)."""
     H = module_dict["H"]
     fields = BODIES[body_id]
-    if qual.isidentifier():
+    if "." in qual:
+        outer, inner = qual.split(".")
+        text = 'class %s:\n    @H["s"]\n    class %s:\n%s\nK_ = %s.%s\n' % (
+            outer, inner, "\n".join('        %s = H["ib"](default=%d)' % (n, body_id) for n in fields) or "        pass",
+            outer, inner)
+    elif qual.isidentifier():
         text = '@H["s"]\nclass %s:\n%s\nK_ = %s\n' % (
             qual, "\n".join('    %s = H["ib"](default=%d)' % (n, body_id) for n in fields) or "    pass", qual)
     else:
@@ -1432,13 +1455,31 @@ def thr_case(plan):
         errors = []
         barrier = threading.Barrier(n)
 
+        yield_lines = bool(plan.get("yield_lines"))
+
+        def line_tracer(frame, event, arg):
+            if event == "line":
+                time.sleep(0)          # give the other definers a turn between any two lines
+            return line_tracer
+
+        def tracer(frame, event, arg):
+            # an ordinary trace hook (what a debugger or coverage tool installs); nothing in
+            # attrs is patched: it only makes the scheduler switch inside the helper
+            if frame.f_code.co_name == "_linecache_and_compile":
+                return line_tracer
+            return None
+
         def work(k):
             try:
+                if yield_lines:
+                    sys.settrace(tracer)
                 barrier.wait(timeout=20)
                 for bid in plan["threads"][k]:
                     results[k].append((bid, define_plain(d, "K", bid)))
             except Exception as ex:  # pragma: no cover
                 errors.append(repr(ex))
+            finally:
+                sys.settrace(None)
 
         ths = [threading.Thread(target=work, args=(k,), daemon=True) for k in range(n)]
         sys.setswitchinterval(1e-6)
@@ -1476,7 +1517,8 @@ _dist = Counter()
 
 def gen_hist_plan(rng):
     n = rng.randint(1, 6)
-    quals = rng.choice([["K"], ["K"], ["K", "K-1"], ["K", "K-1", "K-2"], ["K", "K-1", "K-1-1"]])
+    quals = rng.choice([["K"], ["K"], ["K", "K-1"], ["K", "K-1", "K-2"], ["K", "K-1", "K-1-1"], ["A.K", "B.K"],
+                        ["A.K", "B.K", "K"]])
     pool = rng.sample(range(len(BODIES)), rng.randint(1, 4))
     return {"defs": [[rng.choice(quals), rng.choice(pool), rng.random() < 0.7] for _ in range(n)]}
 
@@ -1485,13 +1527,25 @@ def gen_thr_plan(rng):
     n = rng.choice([2, 4, 8])
     m = rng.randint(2, 6)
     pool = rng.sample(range(len(BODIES)), rng.randint(2, min(12, len(BODIES))))
-    return {"threads": [[rng.choice(pool) for _ in range(m)] for _ in range(n)]}
+    return {"threads": [[rng.choice(pool) for _ in range(m)] for _ in range(n)], "yield_lines": rng.random() < 0.6}
+
+
+def safe(fn, inp, *args, **kw):
+    """A family that crashes on some input reports that input as a failing property case (a broken
+    attrs must give exit 1 with a replay, not an infrastructure failure)."""
+    try:
+        return fn(*args, **kw)
+    except Exception as ex:  # pragma: no cover
+        import traceback
+        return [prop_case(False, inp, {"exception_in_family": [type(ex).__name__, str(ex)],
+                                       "traceback": traceback.format_exc()[-1500:]},
+                          {"family": inp.get("family"), "what": "exception"})]
 
 
 def generate(tier, seed):
     rng = random.Random(seed)
     quick = tier == "quick"
-    n_poison, n_naming, n_alias, n_hist, n_thr = (260, 330, 160, 150, 14) if quick else (3000, 4000, 1600, 1500, 80)
+    n_poison, n_naming, n_alias, n_hist, n_thr = (260, 330, 160, 150, 24) if quick else (3000, 4000, 1600, 1500, 120)
     cases = []
     _dist.clear()
     uid = [0]
@@ -1502,31 +1556,42 @@ def generate(tier, seed):
 
     for i in range(n_poison):
         spec = extend_spec(rng, g.gen_class_spec(rng, nuid(), base=None))
-        cs = poison_cases(spec, rng.randrange(1 << 30))
+        sd = rng.randrange(1 << 30)
+        cs = safe(poison_cases, {"family": "poison", "spec": describe(spec), "seed": sd, "variant": "clean"}, spec, sd)
         cases.extend(cs)
         _dist["poison-specs"] += bool(cs)
     for i in range(n_naming):
         names = NAME_SETS[i % len(NAME_SETS)] if i < 2 * len(NAME_SETS) else rng.choice(NAME_SETS)
         spec = naming_spec(rng, list(names), nuid())
-        cs = naming_cases(spec, rng.randrange(1 << 30))
+        sd = rng.randrange(1 << 30)
+        cs = safe(naming_cases, {"family": "naming", "spec": describe(spec), "seed": sd, "variant": "model"}, spec, sd)
         cases.extend(cs)
         _dist["naming-specs"] += bool(cs)
     for i in range(n_alias):
         spec = alias_spec(rng, nuid())
-        cs = alias_cases(spec, rng.randrange(1 << 30))
+        sd = rng.randrange(1 << 30)
+        cs = safe(alias_cases, {"family": "alias", "spec": describe(spec), "seed": sd, "variant": "model"}, spec, sd)
         cases.extend(cs)
         _dist["alias-specs"] += bool(cs)
     for ho in (False, True):
-        cases.extend(getattr_cases(rng.randrange(1 << 30), ho))
+        sd = rng.randrange(1 << 30)
+        cases.extend(safe(getattr_cases, {"family": "getattr", "has_original": ho, "variant": "clean", "seed": sd}, sd, ho))
     for i in range(n_hist):
-        cases.append(hist_case(gen_hist_plan(rng)))
+        plan = gen_hist_plan(rng)
+        cases.extend(safe(lambda: [hist_case(plan)], {"family": "hist", "plan": plan}))
     for i in range(n_thr):
-        cases.append(thr_case(gen_thr_plan(rng)))
+        plan = gen_thr_plan(rng)
+        cases.extend(safe(lambda: [thr_case(plan)], {"family": "thr", "plan": plan}))
     gc.collect()
     return cases
 
 
 def rerun(inp):
+    r = safe(_rerun, inp, inp)
+    return r[0] if isinstance(r, list) else r
+
+
+def _rerun(inp):
     fam = inp["family"]
     if fam in ("poison", "naming", "alias"):
         spec = norm_spec(inp["spec"])
